@@ -11,7 +11,8 @@ def gens(tier):
 
 
 def check_c13(pid, tier, replay):
-    endpoint.run(pid, tier, replay, ("C13_",), [("endpoint/LinkLife", None)], gens(tier) + endpoint.mix_gens(pid, tier), RULE + endpoint.MIX_RULE)
+    # (C12_NoSpontaneousError: ending a session or dropping a handle never tears the connection down behind the application's back)
+    endpoint.run(pid, tier, replay, ("C13_", "C12_NoSpontaneousError"), [("endpoint/LinkLife", None)], gens(tier) + endpoint.mix_gens(pid, tier), RULE + endpoint.MIX_RULE)
 
 
 def check_c11(pid, tier, replay):
